@@ -35,7 +35,7 @@ ASSUMPTIONS = ["reference relation = set of pairs, updated per the property stat
                "the nodes present, never from the code's output",
                "membership tested by identity"]
 BUDGET_S = {"quick": 100, "thorough": 1500}
-CHUNK = 2000
+CHUNK = 500
 
 CANDS = [[0, "s"], [0, "nosuch"], [1, "t"], [1, "u"], [1, "s"]]       # (asset idx, step); a0:A has s ; b0:B has t,u
 
